@@ -22,7 +22,7 @@ for pid in props:
         mod = importlib.import_module("sa.props." + pid.lower())
     except ImportError:
         mod = None
-    if pid in NOT_APPLICABLE or mod is None or not getattr(mod, "CLAIMED", True):
+    if pid in NOT_APPLICABLE or mod is None or not getattr(mod, "READY", False):
         reason = NOT_APPLICABLE.get(pid) or (getattr(mod, "NA_REASON", None) if mod else None) or \
             "No sound static rule built for this property yet (see DESIGN.md); not claimed."
         na.append({"property_id": pid, "reason": reason})
